@@ -616,7 +616,24 @@ def tie_break(ctx, o):
     init = P.method(Ev, '__init__')[1]
     o.count()
     w = [s for s in ast.walk(init) if isinstance(s, ast.Assign) and any(is_self_attr(t, 'random_weight') for t in s.targets)]
-    if len(w) != 1 or ast.unparse(w[0].value) != 'random.random()':
+    def _weight_source(e):
+        # `random.random()` itself, or a parameterless module-level function / static method whose whole body returns it
+        if ast.unparse(e) == 'random.random()':
+            return True
+        if isinstance(e, ast.Call) and not e.args and not e.keywords:
+            fd = None
+            if isinstance(e.func, ast.Name):
+                fd = Ev.mod.functions.get(e.func.id)
+            elif isinstance(e.func, ast.Attribute) and ast.unparse(e.func.value) in ('Event', 'self', 'type(self)') and e.func.attr in Ev.methods:
+                fd = Ev.methods[e.func.attr]
+                if [ast.unparse(d) for d in fd.decorator_list] != ['staticmethod']:
+                    fd = None
+            if fd is not None and not fd.args.args:
+                from ..norm import simple_return
+                r = simple_return(fd)
+                return r is not None and ast.unparse(r) == 'random.random()'
+        return False
+    if len(w) != 1 or not _weight_source(w[0].value):
         o.fail(P, 'Event.__init__', 'self.random_weight = random.random()', 'the tie-break weight is not one draw from the global generator per event', file=Ev.mod.path, line=init.lineno)
     for s in inv.attr_stores(P, 'random_weight'):
         o.count()
@@ -637,8 +654,10 @@ def init_order(ctx, o):
         if n.kind != 'for' or not isinstance(n.ast.target, ast.Name):
             continue
         v = n.ast.target.id
-        inits = [x for s_ in n.ast.body for x in ast.walk(s_) if isinstance(x, ast.Call) and isinstance(x.func, ast.Attribute) and x.func.attr == 'initialize'
-                 and isinstance(x.func.value, ast.Name) and x.func.value.id == v]
+        # decided on the supergraph: the call may sit in a one-line helper the loop body calls (`self._initialize_asset(asset)`)
+        region = g.reach([m_ for l_, m_ in g.succ[n.id] if l_ == 'T'], avoid={n.id}, follow=lambda l_: l_ != 'exc')
+        inits = [x for nid in region for x in calls_at(g, g.nodes[nid]) if call_attr(x) == 'initialize'
+                 and ast.unparse(subst(x.func.value, FrameEnv(g.nodes[nid].frame))) == v]
         if not inits:
             continue
         n_loops += 1
